@@ -104,9 +104,9 @@ Example C19_early_return :
   events_of (engine_execute_dbg no_sigops (mkExecInput [x51] [x6a] 16384 false false 0 0 0)) =
   [BE; BS; BO; AO; BC; AC; AS; BS; BO; BC; AC; AS; AE; EOK].
 Proof. vm_compute. reflexivity. Qed.
-Example C19_invalid_program_counter :
+Example C19_early_return_into_empty_script :
   events_of (engine_execute_dbg no_sigops (mkExecInput [x51; x6a] [] 16384 false false 0 0 0)) =
-  [BE; BS; BO; AO; AS; BS; BO; BC; AC; AS; BS; AE; EER].
+  [BE; BS; BO; AO; AS; BS; BO; BC; AC; AS; AE; EOK].
 Proof. vm_compute. reflexivity. Qed.
 Example C19_rejected :
   engine_execute_dbg no_sigops (mkExecInput [] [] 0 false false 0 0 0) = (VErr, [], []).
